@@ -127,7 +127,7 @@ def streams(ctx):
             if not close:
                 s = v + s
         out.append((label, s))
-    for i in range(ctx.pick(120, 3000)):
+    for i in range(ctx.pick(100, 1200)):
         n = rng.randint(1, 3)
         s = b""
         for _ in range(n):
@@ -159,7 +159,7 @@ def run(ctx):
         ctx.note_trace(t, nontrivial=any(e["split"]["wire"] for e in t["ev"]))
     ctx.log("recorded %d (stream, mode) cases, %d split runs, %d comparisons" % (len(traces), nplans, sum(len(t["ev"]) for t in traces)))
     rej = ctx.validate("HttpSrvSegTrace", slim, shard_size=ctx.pick(150, 400))
-    for x in rej[:30]:
+    for x in rej[:200]:
         t = traces[x.idx]
         e = t["ev"][x.reached]
         w = t["whole"][e["w"] - 1]
@@ -181,14 +181,20 @@ def run_mc(ctx):
     import os
     from harness.core import MachineryError, SPECS
 
+    if os.environ.get("VERIF_SKIP_MC"):
+        # the design-level TLC runs do not depend on the twisted tree; mutant runs may skip them
+        ctx.log("VERIF_SKIP_MC set: design-level TLC runs skipped (binding only)")
+        ctx.assumptions.append("design-level TLC runs skipped in this run (VERIF_SKIP_MC)")
+        return
+
     if not os.path.exists(os.path.join(SPECS, "HttpServerMC.tla")):
         ctx.log("HttpServerMC not present: machine-level check skipped")
         return
-    r = ctx.mc("HttpServerMC", ctx.pick("HttpServerMC.c18.cfg", "HttpServerMC.c18.thorough.cfg"))
+    r = ctx.mc("HttpServerMC", ctx.pick("HttpServerMC.c18.cfg", "HttpServerMC.c18.thorough.cfg"), timeout=ctx.pick(900, 3000))
     if not r.ok:
         raise MachineryError("HttpServer (channel algorithm model): output is not a function of the consumed prefix: %s\n%s" % (
             r.error, "".join(r.cex[-3:])[-3000:]))
-    ctx.require_actions("HttpServerMC", ["Extend", "Deliver"])
+    ctx.require_actions("HttpServerMC", ["Deliver", "FinishLater", "Lose"])
 
 
 def replay(ctx, obj):
